@@ -117,6 +117,7 @@ type Result struct {
 	NPkgs    int            `json:"npkgs"`
 	Final    []FinalTask    `json:"final,omitempty"` // task graph left behind by one parallel build
 	Shared   []string       `json:"shared,omitempty"`
+	Trace    *Trace         `json:"trace,omitempty"` // protocol events of one traced parallel build
 }
 
 // ---------------------------------------------------------------- loading
@@ -816,7 +817,7 @@ func (r *splitmix) perm(n int) []int {
 	return p
 }
 
-func runProgram(spec *ProgSpec, modeStr string, reps int, seed uint64, abstract bool) *Result {
+func runProgram(spec *ProgSpec, modeStr string, reps int, seed uint64, abstract, trace bool) *Result {
 	res := &Result{Prog: spec.Name, Mode: modeStr, Procs: runtime.GOMAXPROCS(0), Kinds: map[string]int{}, NPkgs: len(spec.Pkgs)}
 	mode, err := modeOf(modeStr)
 	if err != nil {
@@ -888,6 +889,20 @@ func runProgram(spec *ProgSpec, modeStr string, reps int, seed uint64, abstract 
 		}
 		if len(res.Problems) > 0 {
 			break
+		}
+	}
+
+	// --- traced parallel build (protocol events for the Lean model)
+	if trace {
+		c.variant = "trace"
+		begin(spec.Name, modeStr, c.variant)
+		tb := mk(mode)
+		res.Trace = tracedBuild(c, tb)
+		res.NBuilds++
+		if res.Trace != nil {
+			fns := tb.allFunctions()
+			c.checkBuilt(tb, fns, "after traced Program.Build")
+			c.compare(ref, makeDump(fns), "traced parallel build vs serial build")
 		}
 	}
 
@@ -1021,8 +1036,14 @@ func runProgram(spec *ProgSpec, modeStr string, reps int, seed uint64, abstract 
 		var wg sync.WaitGroup
 		var mu sync.Mutex
 		start := make(chan struct{})
+		lockstep := rng.perm(len(sels))
 		for g := 0; g < G; g++ {
 			order := rng.perm(len(sels))
+			if r%2 == 0 {
+				// every goroutine asks for the methods in the same order: lookups of one key
+				// arrive at the memo tables at (nearly) the same time
+				order = lockstep
+			}
 			got[g] = make([]*ir.Function, len(sels))
 			wg.Add(1)
 			go func() {
@@ -1128,6 +1149,14 @@ func (b *built) abstract(fns []*ir.Function) ([]AbsFn, []FinalTask) {
 			k := kindOf(g)
 			if sharedKind(k) {
 				set[id[g]] = true
+				// Program.objectMethod looks the generic origin of a method up (creating it "on
+				// demand" for packages that were never created) before instantiating it: the
+				// same builder performs both lookups
+				if k == "instance" || k == "instwrapper" {
+					if o := asFunc(fld(g, "topLevelOrigin")); o != nil && sharedKind(kindOf(o)) {
+						set[id[o]] = true
+					}
+				}
 				return
 			}
 			if k == "bound" || k == "thunk" {
@@ -1193,6 +1222,7 @@ func main() {
 	only := flag.String("only", "", "run only the program with this name")
 	seed := flag.Uint64("seed", 1, "seed for goroutine start orders")
 	abstract := flag.Bool("abstract", false, "also print the abstraction of every program for the Lean model")
+	trace := flag.Bool("trace", false, "also run one traced parallel build per program and mode and print the protocol events")
 	flag.Parse()
 	if pf := os.Getenv("C18PROF"); pf != "" {
 		f, _ := os.Create(pf)
@@ -1213,7 +1243,7 @@ func main() {
 			continue
 		}
 		for _, m := range strings.Split(*modes, ",") {
-			res := runProgram(&progs[i], m, *reps, *seed+uint64(i)*1000003, *abstract)
+			res := runProgram(&progs[i], m, *reps, *seed+uint64(i)*1000003, *abstract, *trace)
 			if res.Problems == nil {
 				res.Problems = []Problem{}
 			}
